@@ -16,6 +16,16 @@ var (
 	tick   atomic.Int64 // nanoseconds the clock jumps forward after every read
 )
 
+// Freeze stops the clock at exactly t (plus whatever auto-tick adds per read): boundary instants such as
+// "one second after next-update" are then exact however long a call takes. Unfreeze returns to real time + offset.
+func Freeze(t time.Time) { frozen.Store(t.UnixNano()); isFrozen.Store(true) }
+func Unfreeze()          { isFrozen.Store(false) }
+
+var (
+	frozen   atomic.Int64
+	isFrozen atomic.Bool
+)
+
 // SetAutoTick makes the clock jump forward by d after every read: two reads of the clock inside one
 // operation then differ by at least d (a second, a day), so code that reads the clock twice where it
 // should use one instant becomes observable.
@@ -32,6 +42,13 @@ func Calls() int64 { return calls.Load() }
 
 func Now() time.Time {
 	calls.Add(1)
+	if isFrozen.Load() {
+		t := time.Unix(0, frozen.Load())
+		if d := tick.Load(); d != 0 {
+			frozen.Add(d)
+		}
+		return t
+	}
 	t := time.Now().Add(time.Duration(offset.Load()))
 	if d := tick.Load(); d != 0 {
 		offset.Add(d)
